@@ -171,8 +171,14 @@ def impl_api(kw, doc):
     return ("ok", impl_dict(p, doc))
 
 
-def impl_cli_split(args, sub):
-    """run the real command-line front end with the back end stubbed out; returns the parameters it hands over"""
+def impl_cli_split(args, sub, flags=None):
+    """run the real command-line front end with the back end stubbed out; returns the parameters it hands over.
+    flags: sizes of the groups the k=v arguments are spread over, one --param flag per group (None = one flag)"""
+    argv, i = [], 0
+    for n in (flags or [len(args)]):
+        argv += ["--param"] + args[i:i + n]
+        i += n
+    assert i == len(args)
     import aldy.__main__ as M
     from aldy.profile import Profile
     from aldy.common import AldyException
@@ -207,10 +213,10 @@ def impl_cli_split(args, sub):
         with contextlib.redirect_stderr(io.StringIO()), contextlib.redirect_stdout(io.StringIO()):
             try:
                 if sub == "genotype":
-                    M._genotype("toy", None, M._get_args(["genotype", "-p", "illumina", "-g", "toy", "nofile.bam", "--param"] + args)[1])
+                    M._genotype("toy", None, M._get_args(["genotype", "-p", "illumina", "-g", "toy", "nofile.bam"] + argv)[1])
                 else:
                     # the profile branch (its own copy of the k=v split) lives inside main()
-                    M.main(["profile", "nofile.bam", "--param"] + args)
+                    M.main(["profile", "nofile.bam"] + argv)
             except AldyException as e:
                 return parse_err(e)
             except SystemExit:
@@ -230,8 +236,8 @@ def impl_cli_split(args, sub):
     return ("params", {k: v for k, v in captured.items() if k not in known})
 
 
-def impl_cli(args, doc, sub):
-    r = impl_cli_split(args, sub)
+def impl_cli(args, doc, sub, flags=None):
+    r = impl_cli_split(args, sub, flags)
     if r[0] != "params":
         return r
     return impl_api(list(r[1].items()), doc)
@@ -374,7 +380,13 @@ def gen_cases(chk, doc, n_api, n_cli, n_prof, n_wl):
         if rng.random() < 0.08:
             args.insert(rng.randint(0, len(args)), rng.choice(["novalue", "gap", "phase"]))
             kinds = kinds + ["cli:no-equals"]
-        cases.append({"route": "cli-" + rng.choice(["genotype", "profile"]), "args": args, "kinds": kinds})
+        case = {"route": "cli-" + rng.choice(["genotype", "profile"]), "args": args, "kinds": kinds}
+        if len(args) >= 2 and rng.random() < 0.5:
+            # the same parameters spread over several --param flags (`--param gap=0.1 --param phase=false`): they accumulate
+            cuts = sorted(rng.sample(range(1, len(args)), rng.randint(1, len(args) - 1)))
+            case["flags"] = [b - a for a, b in zip([0] + cuts, cuts + [len(args)])]
+            case["kinds"] = kinds + ["cli:several-flags"]
+        cases.append(case)
     doc_nn = [x for x in doc if x[0] != "neutral_value"]   # the loader passes neutral_value itself (duplicate keyword otherwise)
     for _ in range(n_prof):
         okw, okinds = draw_kw(rng.randint(0, 4), p_mal=0.05, p_unknown=0.1, p_none=0.0, doc=doc_nn)
@@ -407,7 +419,7 @@ def run_impl(case, doc):
     if r == "api":
         return [impl_api(case["kw"], doc)]
     if r.startswith("cli"):
-        return [impl_cli(case["args"], doc, r[4:])]
+        return [impl_cli(case["args"], doc, r[4:], case.get("flags"))]
     if r == "profile":
         return [impl_profile(case["options"], case["kw"], doc)]
     if r == "write-load":
